@@ -141,6 +141,7 @@ type sqlOrder struct {
 }
 
 type sqlSelect struct {
+	distinct bool
 	cols    []*sqlExpr
 	from    []sqlFrom
 	where   *sqlExpr
@@ -472,6 +473,9 @@ func (ps *sqlParser) update() *sqlStmt {
 func (ps *sqlParser) selectStmt() *sqlSelect {
 	ps.expectKw("SELECT")
 	sel := &sqlSelect{}
+	if ps.acceptKw("DISTINCT") {
+		sel.distinct = true
+	}
 	for {
 		if ps.acceptOp("*") {
 			sel.cols = append(sel.cols, &sqlExpr{k: "star"})
